@@ -207,6 +207,9 @@ pub struct Client {
     pub exp_reqs: Vec<crate::model::ReqObs>,
     /// how many of the yielded requests have been compared field by field
     pub compared: usize,
+    /// requests yielded from this connection so far, tagged or not (untagged ones are attributed
+    /// through the per-read model: the next expected yield of exactly this client is untagged)
+    pub yielded_all: usize,
     /// number of 400 replies the server must have queued so far
     pub exp_400: usize,
     /// for each expected 400: Some((limit, declared)) when it answers a payload-limit violation
@@ -508,6 +511,7 @@ impl ServerSim {
                                     exp_yield: vec![],
                                     exp_reqs: vec![],
                                     compared: 0,
+                                    yielded_all: 0,
                                     exp_400: 0,
                                     exp_400_kinds: vec![],
                                     rejected: vec![],
@@ -1260,9 +1264,22 @@ impl ServerSim {
                     "untagged".to_string()
                 }
             };
-            let cid = tag_client(&tag).unwrap_or(usize::MAX);
+            let cid = match tag_client(&tag) {
+                Some(c) => c,
+                None => self
+                    .clients
+                    .iter()
+                    .find(|(_, cl)| cl.exp_yield.get(cl.yielded_all).map(|t| t == "untagged").unwrap_or(false))
+                    .map(|(id, _)| *id)
+                    .unwrap_or(usize::MAX),
+            };
             let lib_obs = crate::obs::obs_of(req.inner());
-            if let Some(cl) = self.clients.get_mut(&cid) {
+            if tag == "untagged" {
+                if let Some(cl) = self.clients.get_mut(&cid) {
+                    cl.yielded_all += 1;
+                }
+            } else if let Some(cl) = self.clients.get_mut(&cid) {
+                cl.yielded_all += 1;
                 cl.yielded.push(tag.clone());
                 // the yielded request must carry exactly the bytes the client sent (all public fields)
                 let k = cl.yielded.len() - 1;
